@@ -14,8 +14,18 @@ type cand struct {
 	// at Path is the healthy fixture Comp[Path] and the mutant is a second file the extractor reads.
 	MutPath string
 	Perm    fs.FileMode
-	// Comp are companion files: tree path -> fixture path relative to the extractor's package directory.
+	// Comp are companion files: tree path -> fixture path relative to the extractor's package directory,
+	// or "i:<name>" for an inline document of the inline table below.
 	Comp map[string]string
+	// Primary is the healthy content of the file at Path when the mutant lives elsewhere (MutPath != Path):
+	// "i:<name>" inline document, or a fixture path relative to the extractor's package directory.
+	Primary string
+	// Seeds names the seed set of this placement: "" = the extractor's own testdata + minimal documents;
+	// otherwise a set of secondarySets (files the extractor reads through input.FS besides the one it is
+	// invoked on).
+	Seeds string
+	// NoOSRelease leaves etc/os-release out of the scene (to reach the usr/lib/os-release fallback).
+	NoOSRelease bool
 }
 
 func (c cand) mutPath() string {
@@ -39,8 +49,19 @@ const (
 	ctrdMeta   = "var/lib/containerd/io.containerd.metadata.v1.bolt/meta.db"
 	ctrdSnap   = "var/lib/containerd/io.containerd.snapshotter.v1.overlayfs/metadata.db"
 	ctrdStatus = "var/lib/containerd/io.containerd.grpc.v1.cri/containers/b47fb93b51d091e16ae145b8b1438e5c011fd68cd65305fcd42fd83a13da7a8c/status"
+	ctrdShim   = "ProgramData/containerd/state/io.containerd.runtime.v2.task/default/test_pod/shim.pid"
 	chromeExt  = "home/u/.config/google-chrome/Default/Extensions/ghbmnnjooekpmoecnnnilnnbdlolhkhi/1.7_0/manifest.json"
+	chromeMsg  = "home/u/.config/google-chrome/Default/Extensions/ghbmnnjooekpmoecnnnilnnbdlolhkhi/1.7_0/_locales/en/message.json"
 )
+
+// osFamily builds the placements of an OS extractor: the primary file itself, and etc/os-release mutated
+// next to a healthy primary file.
+func osFamily(primaryPath, healthy string, realDir bool, perm fs.FileMode) spec {
+	return spec{RealDir: realDir, Cands: []cand{
+		{Path: primaryPath, Perm: perm},
+		{Path: primaryPath, Perm: perm, MutPath: "etc/os-release", Primary: healthy, Seeds: "osrelease"},
+	}}
+}
 
 func one(p string) spec { return spec{Cands: []cand{{Path: p}}} }
 func many(ps ...string) spec {
@@ -59,36 +80,50 @@ var specs = map[string]spec{
 		{Path: ctrdMeta, Comp: map[string]string{ctrdSnap: "testdata/metadata_linux_test.db", ctrdStatus: "testdata/status"}},
 		{Path: ctrdMeta, MutPath: ctrdSnap, Comp: map[string]string{ctrdMeta: "testdata/meta_linux_test_single.db", ctrdStatus: "testdata/status"}},
 		{Path: ctrdMeta, MutPath: ctrdStatus, Comp: map[string]string{ctrdMeta: "testdata/meta_linux_test_single.db", ctrdSnap: "testdata/metadata_linux_test.db"}},
+		// runhcs containers (the Windows fixture) take their pid from shim.pid
+		{Path: ctrdMeta, MutPath: ctrdShim, Comp: map[string]string{ctrdMeta: "testdata/meta_windows.db", ctrdSnap: "testdata/metadata_linux_test.db"}, Seeds: "containerd-shim"},
 	}},
-	"cpp/conanlock":                      one("conan.lock"),
-	"dart/pubspec":                       one("pubspec.lock"),
-	"dotnet/depsjson":                    one("app/app.deps.json"),
-	"dotnet/pe":                          {RealDir: true, Cands: []cand{{Path: "app/App.dll"}, {Path: "app/App.exe"}}},
-	"dotnet/packagesconfig":              one("app/packages.config"),
-	"dotnet/packageslockjson":            one("app/packages.lock.json"),
-	"elixir/mixlock":                     one("mix.lock"),
-	"erlang/mixlock":                     one("mix.lock"),
-	"go/binary":                          {Cands: []cand{{Path: "usr/bin/app", Perm: 0o755}}},
-	"go/gomod":                           one("src/go.mod"),
+	"cpp/conanlock":           one("conan.lock"),
+	"dart/pubspec":            one("pubspec.lock"),
+	"dotnet/depsjson":         one("app/app.deps.json"),
+	"dotnet/pe":               {RealDir: true, Cands: []cand{{Path: "app/App.dll"}, {Path: "app/App.exe"}}},
+	"dotnet/packagesconfig":   one("app/packages.config"),
+	"dotnet/packageslockjson": one("app/packages.lock.json"),
+	"elixir/mixlock":          one("mix.lock"),
+	"erlang/mixlock":          one("mix.lock"),
+	"go/binary":               {Cands: []cand{{Path: "usr/bin/app", Perm: 0o755}}},
+	"go/gomod": {Cands: []cand{
+		{Path: "src/go.mod"},
+		// go.sum is consulted for go < 1.17
+		{Path: "src/go.mod", MutPath: "src/go.sum", Primary: "i:gomod-116", Seeds: "gosum"},
+	}},
 	"haskell/cabal":                      one("cabal.project.freeze"),
 	"haskell/stacklock":                  one("stack.yaml.lock"),
 	"java/archive":                       one("opt/app/lib/app.jar"),
 	"java/gradlelockfile":                many("gradle.lockfile", "buildscript-gradle.lockfile"),
 	"java/gradleverificationmetadataxml": one("gradle/verification-metadata.xml"),
-	"java/pomxml":                        one("pom.xml"),
-	"javascript/bunlock":                 one("bun.lock"),
-	"javascript/packagejson":             one("usr/lib/node_modules/p/package.json"),
-	"javascript/packagelockjson":         one("package-lock.json"),
-	"javascript/pnpmlock":                one("pnpm-lock.yaml"),
-	"javascript/yarnlock":                one("yarn.lock"),
-	"php/composerlock":                   one("composer.lock"),
-	"python/condameta":                   one("opt/conda/envs/e/conda-meta/pkg-1.0-0.json"),
-	"python/pdmlock":                     one("pdm.lock"),
-	"python/pipfilelock":                 one("Pipfile.lock"),
-	"python/poetrylock":                  one("poetry.lock"),
-	"python/requirements":                one("requirements.txt"),
-	"python/setup":                       one("setup.py"),
-	"python/uvlock":                      one("uv.lock"),
+	"java/pomxml": {Cands: []cand{
+		{Path: "pom.xml"},
+		// the local parent (default relativePath ../pom.xml) mutated next to a child that names it
+		{Path: "proj/child/pom.xml", MutPath: "proj/pom.xml", Primary: "i:pom-child", Seeds: "pom-parent"},
+	}},
+	"javascript/bunlock":         one("bun.lock"),
+	"javascript/packagejson":     one("usr/lib/node_modules/p/package.json"),
+	"javascript/packagelockjson": one("package-lock.json"),
+	"javascript/pnpmlock":        one("pnpm-lock.yaml"),
+	"javascript/yarnlock":        one("yarn.lock"),
+	"php/composerlock":           one("composer.lock"),
+	"python/condameta":           one("opt/conda/envs/e/conda-meta/pkg-1.0-0.json"),
+	"python/pdmlock":             one("pdm.lock"),
+	"python/pipfilelock":         one("Pipfile.lock"),
+	"python/poetrylock":          one("poetry.lock"),
+	"python/requirements": {Cands: []cand{
+		{Path: "requirements.txt"},
+		// a file pulled in with -r
+		{Path: "requirements.txt", MutPath: "other/req-inc.txt", Primary: "i:req-including", Seeds: "req-include"},
+	}},
+	"python/setup":  one("setup.py"),
+	"python/uvlock": one("uv.lock"),
 	"python/wheelegg": many("usr/lib/python3/site-packages/p-1.0.dist-info/METADATA", "usr/lib/python3/site-packages/p-1.0.egg-info/PKG-INFO",
 		"usr/lib/python3/site-packages/p-1.0.egg-info", "usr/lib/python3/site-packages/p-1.0.egg"),
 	"r/renvlock":            one("renv.lock"),
@@ -99,23 +134,33 @@ var specs = map[string]spec{
 	"rust/cargotoml":        one("Cargo.toml"),
 	"swift/packageresolved": one("Package.resolved"),
 	"swift/podfilelock":     one("Podfile.lock"),
-	"chrome/extensions":     one(chromeExt),
-	"vscode/extensions":     one("home/u/.vscode/extensions/extensions.json"),
-	"wordpress/plugins":     one("var/www/html/wp-content/plugins/p/p.php"),
-	"os/apk":                one("lib/apk/db/installed"),
-	"os/cos":                one("etc/cos-package-info.json"),
-	"os/dpkg":               many("var/lib/dpkg/status", "var/lib/dpkg/status.d/pkg", "usr/lib/opkg/status"),
-	"os/flatpak":            one("var/lib/flatpak/app/org.x.App/current/active/export/share/metainfo/org.x.App.metainfo.xml"),
-	"os/homebrew":           many("usr/local/Cellar/app/1.0/INSTALL_RECEIPT.json", "usr/local/Caskroom/app/1.0/app.wrapper.sh"),
-	"os/kernel/module":      one("lib/modules/6.1.0/kernel/drivers/x/x.ko"),
-	"os/kernel/vmlinuz":     one("boot/vmlinuz-6.1.0"),
-	"os/macapps":            one("Applications/X.app/Contents/Info.plist"),
-	"os/nix":                one("nix/store/1ddf3x30m0z6kknmrmapsc7liz8npi1w-perl-5.38.2/bin/ptar"),
-	"os/pacman":             one("var/lib/pacman/local/pkg-1.0-1/desc"),
-	"os/portage":            one("var/db/pkg/cat/pkg-1.0/PF"),
+	"chrome/extensions": {Cands: []cand{
+		{Path: chromeExt},
+		// a minimal manifest whose name/description are locale placeholders, with its message.json in place
+		{Path: chromeExt, Seeds: "chrome-manifest-min", Comp: map[string]string{chromeMsg: "i:chrome-messages-min"}},
+		// the locale file mutated next to that manifest
+		{Path: chromeExt, MutPath: chromeMsg, Primary: "i:chrome-manifest-min", Seeds: "chrome-messages"},
+	}},
+	"vscode/extensions": one("home/u/.vscode/extensions/extensions.json"),
+	"wordpress/plugins": one("var/www/html/wp-content/plugins/p/p.php"),
+	"os/apk":            osFamily("lib/apk/db/installed", "testdata/single", false, 0),
+	"os/cos":            osFamily("etc/cos-package-info.json", "testdata/single.json", false, 0),
+	"os/dpkg": {Cands: []cand{
+		{Path: "var/lib/dpkg/status"}, {Path: "var/lib/dpkg/status.d/pkg"}, {Path: "usr/lib/opkg/status"},
+		{Path: "var/lib/dpkg/status", MutPath: "etc/os-release", Primary: "i:dpkg-status", Seeds: "osrelease"},
+		{Path: "var/lib/dpkg/status", MutPath: "usr/lib/os-release", Primary: "i:dpkg-status", Seeds: "osrelease", NoOSRelease: true},
+	}},
+	"os/flatpak":        osFamily("var/lib/flatpak/app/org.x.App/current/active/export/share/metainfo/org.x.App.metainfo.xml", "testdata/valid.xml", false, 0),
+	"os/homebrew":       many("usr/local/Cellar/app/1.0/INSTALL_RECEIPT.json", "usr/local/Caskroom/app/1.0/app.wrapper.sh"),
+	"os/kernel/module":  osFamily("lib/modules/6.1.0/kernel/drivers/x/x.ko", "testdata/valid", false, 0),
+	"os/kernel/vmlinuz": osFamily("boot/vmlinuz-6.1.0", "testdata/invalid", false, 0),
+	"os/macapps":        one("Applications/X.app/Contents/Info.plist"),
+	"os/nix":            osFamily("nix/store/1ddf3x30m0z6kknmrmapsc7liz8npi1w-perl-5.38.2/bin/ptar", "i:one-byte", false, 0),
+	"os/pacman":         osFamily("var/lib/pacman/local/pkg-1.0-1/desc", "testdata/valid", false, 0),
+	"os/portage":        osFamily("var/db/pkg/cat/pkg-1.0/PF", "testdata/valid", false, 0),
 	// go-rpmdb sniffs the database format from the content, not from the name.
-	"os/rpm":    {RealDir: true, Cands: []cand{{Path: "var/lib/rpm/Packages"}}},
-	"os/snap":   one("snap/core/1/meta/snap.yaml"),
+	"os/rpm":    osFamily("var/lib/rpm/Packages", "testdata/Packages_epoch", true, 0),
+	"os/snap":   osFamily("snap/core/1/meta/snap.yaml", "testdata/single-arch.yaml", false, 0),
 	"sbom/cdx":  many("sbom/a.cdx.json", "sbom/a.cdx.xml"),
 	"sbom/spdx": many("sbom/a.spdx.json", "sbom/a.spdx", "sbom/a.spdx.yml", "sbom/a.spdx.rdf"),
 }
@@ -138,4 +183,42 @@ func guessPaths(seedRels []string) []string {
 		add("usr/lib/" + path.Base(r))
 	}
 	return out
+}
+
+// inline documents (healthy primary files and seeds of secondary inputs)
+var inline = map[string]string{
+	"one-byte":    "x",
+	"dpkg-status": healthyDpkg,
+	// os-release(5): a typical file, and one whose values are all empty quoted strings
+	"osrelease-valid":        osRelease,
+	"osrelease-empty-values": "NAME=\"\"\nID=\"\"\nVERSION_ID=\"\"\n",
+	// chrome: minimal manifest v3 whose name/description are __MSG_key__ placeholders (one-character and
+	// empty key) resolved through _locales/<default_locale>/message.json
+	"chrome-manifest-min": `{"manifest_version":3,"name":"__MSG_a__","description":"__MSG___","version":"1.0","default_locale":"en"}`,
+	"chrome-messages-min": `{"a":{"message":"An extension"},"":{"message":"x"}}`,
+	"gomod-116":           "module example.com/m\n\ngo 1.16\n\nrequire github.com/BurntSushi/toml v1.0.0\n",
+	"gosum-min":           "github.com/BurntSushi/toml v1.0.0 h1:dtDWrepsVPfW9H/4y7dDgFc2MBUSeJhlaDtK13CxFlU=\ngithub.com/BurntSushi/toml v1.0.0/go.mod h1:CxXYINrC8qIiEnFrOxCa7Jy5BFHlXnUU2pbicEuybxQ=\n",
+	"req-including":       "-r other/req-inc.txt\nflask==3.0.0\n",
+	"req-included":        "requests==2.31.0\n",
+	"pom-child":           `<project><modelVersion>4.0.0</modelVersion><parent><groupId>org.example</groupId><artifactId>parent</artifactId><version>1.0</version></parent><artifactId>child</artifactId><dependencies><dependency><groupId>junit</groupId><artifactId>junit</artifactId></dependency></dependencies></project>`,
+	"pom-parent":          `<project><modelVersion>4.0.0</modelVersion><groupId>org.example</groupId><artifactId>parent</artifactId><version>1.0</version><packaging>pom</packaging><properties><junit.version>4.12</junit.version></properties><dependencyManagement><dependencies><dependency><groupId>junit</groupId><artifactId>junit</artifactId><version>${junit.version}</version></dependency></dependencies></dependencyManagement></project>`,
+}
+
+// secondarySet describes the seeds of one kind of secondary input.
+type secondarySet struct {
+	Inline []string // names in inline
+	// FixtureDir (relative to the repository) and Match select fixture files; Match is a suffix list, empty = all.
+	FixtureDir string
+	Match      []string
+	NoMinimal  bool // do not add the minimal documents
+}
+
+var secondarySets = map[string]secondarySet{
+	"osrelease":           {Inline: []string{"osrelease-valid", "osrelease-empty-values"}},
+	"chrome-manifest-min": {Inline: []string{"chrome-manifest-min"}, NoMinimal: true},
+	"chrome-messages":     {Inline: []string{"chrome-messages-min"}, FixtureDir: "extractor/filesystem/misc/chrome/extensions/testdata", Match: []string{"/message.json", "/messages.json"}},
+	"gosum":               {Inline: []string{"gosum-min"}, FixtureDir: "extractor/filesystem/language/golang/gomod/testdata", Match: []string{".sum"}},
+	"req-include":         {Inline: []string{"req-included"}, FixtureDir: "extractor/filesystem/language/python/requirements/testdata"},
+	"containerd-shim":     {FixtureDir: "extractor/filesystem/containers/containerd/testdata", Match: []string{"/shim.pid", "/state.json"}},
+	"pom-parent":          {Inline: []string{"pom-parent"}, FixtureDir: "extractor/filesystem/language/java/pomxml/testdata"},
 }
